@@ -269,12 +269,19 @@ func RunWirePar(k, rounds int) []string {
 		for _, s := range socks {
 			go func(s *sock) {
 				<-start
-				_, _ = s.c.Write(s.payload)
 				buf := make([]byte, 256)
-				_ = s.c.SetReadDeadline(time.Now().Add(2 * time.Second))
-				if n, err := s.c.Read(buf); err == nil {
-					s.seen[core.Hex(buf[:n])] = true
-				} else {
+				got := false
+				// a heartbeat that is not answered within two seconds is sent once more (it is idempotent; a datagram or its
+				// answer may be lost, a loaded machine may stall): only two silences in a row count as no answer
+				for attempt := 0; attempt < 2 && !got; attempt++ {
+					_, _ = s.c.Write(s.payload)
+					_ = s.c.SetReadDeadline(time.Now().Add(2 * time.Second))
+					if n, err := s.c.Read(buf); err == nil {
+						s.seen[core.Hex(buf[:n])] = true
+						got = true
+					}
+				}
+				if !got {
 					s.seen["none"] = true
 				}
 				done <- struct{}{}
